@@ -13,6 +13,23 @@ import (
 
 type Opts struct {
 	OnBounds bool
+	// NamedSlices: parameters that receive a list are declared with the named
+	// types nodesT / toksT (assignable from, but not identical to, []*nodeT / []Token).
+	NamedSlices bool
+}
+
+// ParamType is the declared parameter type for a term under o.
+func ParamType(t Term, o Opts) string {
+	g := GoType(t)
+	if o.NamedSlices {
+		switch g {
+		case "[]*nodeT":
+			return "nodesT"
+		case "[]Token":
+			return "toksT"
+		}
+	}
+	return g
 }
 
 // GoType is the Go type the uniform action file uses for a term.
@@ -62,6 +79,9 @@ type nodeT struct {
 	Kids []any
 }
 
+type nodesT []*nodeT
+type toksT []Token
+
 // Discard: nodes covering an even number of input tokens are dropped by *!.
 func (n *nodeT) Discard() bool {
 	var f []int
@@ -80,6 +100,7 @@ type prs struct {
 	firstErr int
 	reads    int
 	ntoks    int
+	errToks  []int
 }
 
 func (p *prs) step() {
@@ -117,6 +138,10 @@ func frontier(v any, out *[]int) {
 		for _, k := range v {
 			frontier(k, out)
 		}
+	case nodesT:
+		frontier([]*nodeT(v), out)
+	case toksT:
+		frontier([]Token(v), out)
 	case []Error:
 		for _, k := range v {
 			frontier(k, out)
@@ -183,6 +208,10 @@ func show(v any) string {
 			s += show(k)
 		}
 		return s + "]"
+	case nodesT:
+		return show([]*nodeT(v))
+	case toksT:
+		return show([]Token(v))
 	case []Error:
 		s := "["
 		for i, k := range v {
@@ -205,6 +234,7 @@ type Result struct {
 	Steps    int
 	Errs     int
 	FirstErr int
+	ErrToks  []int
 	Tree     string
 	Front    []int
 	Log      []string
@@ -216,6 +246,7 @@ func Run(toks []int, limit int) (r Result) {
 	p := &prs{limit: limit, firstErr: -2, ntoks: len(toks)}
 	defer func() {
 		r.FirstErr, r.Reads, r.Errs, r.Steps = p.firstErr, p.reads, p.errs, p.steps
+		r.ErrToks = p.errToks
 		r.Log = p.log
 		if x := recover(); x != nil {
 			switch x := x.(type) {
@@ -259,9 +290,9 @@ func (p *prs) _onBounds(r any, begin, end Token) {
 		for _, p := range r.Prods {
 			var params, kids, sig []string
 			for i, t := range p.Terms {
-				params = append(params, fmt.Sprintf("a%d %s", i, GoType(t)))
+				params = append(params, fmt.Sprintf("a%d %s", i, ParamType(t, o)))
 				kids = append(kids, fmt.Sprintf("a%d", i))
-				sig = append(sig, GoType(t))
+				sig = append(sig, ParamType(t, o))
 			}
 			k := strings.Join(sig, ",")
 			if seen[k] {
@@ -272,11 +303,11 @@ func (p *prs) _onBounds(r any, begin, end Token) {
 			b.WriteString("\tp.step()\n")
 			for i, t := range p.Terms {
 				if t.Kind == KErr {
-					fmt.Fprintf(&b, "\tp.errs++\n\tif p.firstErr == -2 {\n\t\tp.firstErr = a%d.Token.Idx\n\t}\n", i)
+					fmt.Fprintf(&b, "\tp.errs++\n\tp.errToks = append(p.errToks, a%d.Token.Idx)\n\tif p.firstErr == -2 {\n\t\tp.firstErr = a%d.Token.Idx\n\t}\n", i, i)
 				} else if t.Name == "ERROR" && t.Kind == KOpt {
-					fmt.Fprintf(&b, "\tif a%d.Token != (Token{}) || a%d.Expected != nil {\n\t\tp.errs++\n\t\tif p.firstErr == -2 {\n\t\t\tp.firstErr = a%d.Token.Idx\n\t\t}\n\t}\n", i, i, i)
+					fmt.Fprintf(&b, "\tif a%d.Token != (Token{}) || a%d.Expected != nil {\n\t\tp.errs++\n\t\tp.errToks = append(p.errToks, a%d.Token.Idx)\n\t\tif p.firstErr == -2 {\n\t\t\tp.firstErr = a%d.Token.Idx\n\t\t}\n\t}\n", i, i, i, i)
 				} else if t.Name == "ERROR" {
-					fmt.Fprintf(&b, "\tfor _, e := range a%d {\n\t\tp.errs++\n\t\tif p.firstErr == -2 {\n\t\t\tp.firstErr = e.Token.Idx\n\t\t}\n\t}\n", i)
+					fmt.Fprintf(&b, "\tfor _, e := range a%d {\n\t\tp.errs++\n\t\tp.errToks = append(p.errToks, e.Token.Idx)\n\t\tif p.firstErr == -2 {\n\t\t\tp.firstErr = e.Token.Idx\n\t\t}\n\t}\n", i)
 				}
 			}
 			fmt.Fprintf(&b, "\tp.seq++\n\tn := &nodeT{Rule: %q, ID: p.seq, Kids: []any{%s}}\n", r.Name, strings.Join(kids, ", "))
@@ -314,6 +345,7 @@ type Result struct {
 	Steps    int
 	Errs     int
 	FirstErr int
+	ErrToks  []int
 	Tree     string
 	Front    []int
 	Log      []string
